@@ -344,6 +344,41 @@ def reader_rows(tier: str, seed: int) -> list[dict]:
     return rows, covered
 
 
+READER_OF = {"write_unsigned_varint": "read_unsigned_varint", "write_unsigned_varlong": "read_unsigned_varlong",
+             "write_signed_varint": "read_signed_varint", "write_signed_varlong": "read_signed_varlong",
+             "write_int8": "read_int8", "write_int16": "read_int16", "write_int32": "read_int32",
+             "write_int64": "read_int64", "write_uint8": "read_uint8", "write_uint16": "read_uint16",
+             "write_uint32": "read_uint32", "write_uint64": "read_uint64", "write_float64": "read_float64",
+             "write_uuid": "read_uuid", "write_boolean": "read_boolean", "write_error_code": "read_error_code",
+             "write_timedelta_i32": "read_timedelta_i32", "write_timedelta_i64": "read_timedelta_i64",
+             "write_datetime_i64": "read_datetime_i64", "write_nullable_datetime_i64": "read_nullable_datetime_i64",
+             "write_compact_string": "read_compact_string", "write_nullable_compact_string": "read_compact_string_nullable",
+             "write_legacy_string": "read_legacy_string", "write_nullable_legacy_string": "read_nullable_legacy_string"}
+
+
+def reader_after_writer_rows(wrows: list[dict], seed: int) -> list[dict]:
+    """Reader after writer: what each writer emitted (inside its domain) is offered to its reader."""
+    rng = random.Random(seed + 9)
+    fns = public_functions()
+    rows = []
+    for w in wrows:
+        rfn = READER_OF.get(w["fn"])
+        if rfn is None or w["out"] != "ok":
+            continue
+        if w["fn"] in ("write_unsigned_varint", "write_signed_varint") and rng.random() > 0.05:
+            continue              # 30k small varints: a sample is enough, the large ones are all kept
+        if w["fn"] in ("write_compact_string", "write_nullable_compact_string", "write_legacy_string",
+                       "write_nullable_legacy_string") and "rle" not in w["x"] and "blob" not in w["x"] and "null" not in w["x"]:
+            continue
+        bs = project.unbabs(w["b"])
+        try:
+            bs.decode("utf-8") if "string" in w["fn"] and False else None
+        except Exception:  # noqa: BLE001
+            pass
+        rows.append({"k": "r", "fn": rfn, "b": babs(bs), **_call_reader(rfn, fns[rfn], bs)})
+    return rows
+
+
 # ------------------------------------------------------------------ value types (C12)
 def type_rows(seed: int) -> list[dict]:
     from kio.serial import readers as rd, writers as wr
